@@ -18,5 +18,11 @@ CHECKS = {
   "text": "For each modulator built by its real constructor the real SER/BER/PER/SE methods are executed on a symbolic SNR: ranges, monotonicity, BER<=SER<=log2(M)BER, PER and SE identities (concrete and symbolic packet length) and the eps-band tie between the Q-argument and (d_min/2)sqrt(2 snr) of the EMITTED constellation are discharged by z3. qfunc is used through its contract, itself proved from the erfc body. Binary64 behaviour (tail accuracy, tends to 0) and the PSK bound-vs-exact claim are bounded numeric checks.",
   "note": "Ideal reals with binary64 constants (1e-12/1e-15 relative slack where the code rounds constants); Q axioms; PSK exact-SER sandwich only bounded (quadrature).",
  },
+ "C12": {
+  "category": "proof",
+  "technique": "contract-based deductive verification: doWF symbolically executed per channel count (sort by real argsort on symbolic values, loop fully unrolled) -> z3 nonlinear real VCs; optimality via assumed KKT lemma; bounded native check",
+  "text": "For every channel count N in the stated bound and ALL positive gains, power, noise and symbol energy: non-negativity, sum = total power, P_i = max(0, mu - noise/(Es g_i)) for the returned mu, and permutation equivariance are discharged on every path of the real code. This is bounded in N (quick 1..4, thorough 1..6) and unbounded in the values. Optimality is reduced to the KKT structure by lemma L-KKT (assumed). A native check covers N<=60, 12 decades, ties, and perturbation optimality.",
+  "note": "Ideal reals; N bounded; lemma L-KKT (KKT structure => capacity optimal, by concavity) assumed, not machine-checked.",
+ },
 }
 NOT_APPLICABLE = {}
